@@ -34,6 +34,16 @@ def u_limits(t): return t_unit('t_limits', 'LIMITS', tier=t)
 def u_scopes(t): return t_unit('t_scopes', 'SCOPES', tier=t)
 
 
+def u_tree(t, k): return t_unit('t_tree_sel%d' % k, 'TREE', ['-DTREE_SEL=%d' % k, '-DNDEBUG'], tier=t)
+
+
+def plain_unit(name, src, tier, flags=(), opt='-O1', tier_arg=None):
+    u = {'name': name, 'src': src, 'flags': list(flags), 'opt': opt}
+    if tier_arg:
+        u['tier_arg'] = tier_arg
+    return u
+
+
 T_ASSUME = [
     'the reference interpreter (engine/ref.hpp) is the PEG formalism / the documented expansions',
     'table-dispatched grammars behave like static grammars of named rules (T<->static conformance is checked under C01)',
@@ -103,6 +113,25 @@ CHECKS = {
                 'cursor, outer state), of the surviving action log (family, span, state instance seen) and of the control seen by every rule attempt with a '
                 'lexical scoping model',
         'assumptions': T_ASSUME,
+    },
+    'C12': {
+        'units': lambda t: [dict(u_tree(t, k), shards=4) for k in range(7)],
+        'rule': 'tables of <=3 rules over the classical operators, must and try_catch_*_return_false with throwing actions (aborted branches the run survives) '
+                'and open tables with throwing holes, all inputs over {a,b} of length <=3 (thorough 4), through parse_tree::parse with 7 selector/transformer '
+                'variants (all, even ids, odd ids, fold_one, discard_empty, remove_content+fold_one, none); oracle: tree returned iff the parse succeeds; '
+                'flattened (type, begin, end, depth) sequence equals the surviving derivation of the reference with the transformers applied as documented; '
+                'node positions follow the prefix formula',
+        'assumptions': T_ASSUME + ['node::subs_t of table rules lists all rules, so the compile-time leaf optimisation is exercised separately on static grammars'],
+    },
+    'C19': {
+        'units': lambda t: [plain_unit('u_c19', 'units/c19.cpp', t, tier_arg='thorough')],
+        'engine': 'unit-domain',
+        'rule': 'all inputs over {a, LF, CR} of length <=8 x 5 eol policies x eager/lazy x 5 initial-counter settings ((0,1,1) (7,3,5) (7,1,1) (0,3,1) (0,1,5)) x every '
+                'position 0..size obtained by bump, from a parse_error and through the policy\'s own eol rule; oracle: all returned pointers inside [begin,end]; '
+                'at(p) is the byte at p; begin_of_line/end_of_line/line_at equal an independent line splitter on inputs where "line" is unambiguous for the policy; '
+                'eager and lazy agree',
+        'assumptions': ['independent splitter in units/c19.cpp; for cr_crlf both readings of where the LF of a CR LF pair belongs are accepted (documented in the source)'],
+        'technique': 'exhaustive enumeration of inputs x positions x configurations on the real code against an independent line splitter',
     },
     'C06': {
         'units': lambda t: [dict(u, shards=8) for u in pos_units(t)],
